@@ -30,6 +30,19 @@ CHECKS = {
             "code by exact comparison of traces (state, head-relative non-blank cells), NTM levels as sets, generator endings, "
             "accepts_input/read_input under a step budget.",
             "Runs are compared up to the step budget only (halting is not assumed).", "7/C03"),
+    "C17": ("Coq theorems about an executable, index-by-index model of MNTM.read_input_as_ntm's extended-tape splicing (after the "
+            "left-boundary repair) against the C03 tape step and the multitape step relation + differential correspondence against /repo",
+            "Proved for all machines with consistent tapes, inputs and fuels (unbounded): one virtual-tape write+move re-establishes the "
+            "encoding for L/R/N in the interior, at the left end and at the right end (C17_apply_move_encodes), hence for all tapes of a "
+            "transition; head extraction on an encoding never reports a malformed tape; one BFS iteration appends exactly the encodings of the "
+            "multitape successors and accepts iff the state is final (C17_step_simulates); the simulation's verdict is sound for every fuel and "
+            "it ends only by acceptance, the rejection exception or fuel exhaustion (C17_simulation_verdict); simulation and native run give "
+            "the same verdict for every pair of fuels on which both return (C17_verdict_agreement). Model tied to the code by exact comparison "
+            "of every yielded (state, extended tape, position) and the generator ending; the implementation's two runs are also compared with "
+            "each other directly.",
+            "Tape alphabets containing the marker characters '^' or '_' are outside the model (typed markers) and are not generated. "
+            "The model is of the repaired left-boundary branch (DESIGN section 8 row 11); on a tree without that repair the check reports "
+            "the defect as a violation.", "7/C17"),
 }
 
 PENDING = {}
